@@ -28,7 +28,8 @@ Proof.
 Qed.
 
 (** a block whose statements contain no `let` *)
-Definition no_let (e : expr) : bool := match e with ELet _ _ _ => false | _ => true end.
+Definition no_let (e : expr) : bool :=
+  match e with ELet _ _ _ | EDebugMapBuilder | EDebugFieldArg _ _ _ _ _ _ => false | _ => true end.
 
 Section Blocks.
   Variable I : interp.
